@@ -219,3 +219,63 @@ def operators_on_functions_by_points_batches(S):
     S.ensure("normal-derivative-shape", ok)
     if ok:
         S.forall("normal-derivative-entry-b-n", Tensor(nd), lambda q: zreal(nd.at(q)) == sum((D(U, k, q[0], q[1]) * zreal(nrm.val.at([q[0], q[1], (k,)])) for k in range(dx)), z3.RealVal(0)))
+
+
+@scenario("C03", [DO + "grad", DO + "laplacian", DO + "partial", DO + "div", DO + "jac", DO + "normal_derivative"], configs=["dx=1", "dx=2"], bounded=BOUND + "; two input variables of the SAME shape, operators called one after the other on the same output tensors")
+def operator_results_do_not_depend_on_earlier_operator_calls(S):
+    """history: the operators are applied one after the other to the SAME output tensors u = U(x, y), v = V(x, y)
+    with x and y of identical shape; whatever was asked before (another variable, another operator, the documented
+    grad= shortcut), each result is the analytic expression in its own derivative variable"""
+    dx = int(S.cfg[-1])
+    N = S.int("N", 1)
+    x, y = leaf(S, "x", N, dx), leaf(S, "y", N, dx)
+
+    def ins(r):
+        return [zreal(t.val.at([r, (k,) if dx != 1 else ()])) for t in (x, y) for k in range(dx)]
+
+    U = z3.Function("U_0", *([z3.RealSort()] * (2 * dx + 1)))
+    V = [z3.Function(f"V_{c}", *([z3.RealSort()] * (2 * dx + 1))) for c in range(dx)]
+    u = Tensor(STensor([core.dim_of(N), Dim([1])], lambda idx: U(*ins(idx[0])), "real", "u"))
+    v = Tensor(STensor([core.dim_of(N), Dim([dx])], lambda idx: core.select_comp(idx[1][0] if dx != 1 else 0, dx, [(lambda f=f: f(*ins(idx[0]))) for f in V]), "real", "v"))
+    D = lambda f, k, r: jets.deriv_symbol(f, k)(*ins(r))
+    DD = lambda f, k, l, r: jets.deriv_symbol(jets.deriv_symbol(f, k), l)(*ins(r))
+    off = {"x": 0, "y": dx}
+    var = {"x": x, "y": y}
+
+    def want_grad(tag, w, res):
+        S.forall(f"{tag}:grad-in-{w}", Tensor(res), lambda q: zreal(res.at(q)) == core.select_comp(q[1][0] if dx != 1 else 0, dx, [(lambda k=k: D(U, off[w] + k, q[0])) for k in range(dx)]))
+
+    def want_lap(tag, w, res):
+        S.forall(f"{tag}:laplacian-in-{w}", Tensor(res), lambda q: zreal(res.at(q)) == sum((DD(U, off[w] + k, off[w] + k, q[0]) for k in range(dx)), z3.RealVal(0)))
+
+    def want_div(tag, w, res):
+        S.forall(f"{tag}:div-in-{w}", Tensor(res), lambda q: zreal(res.at(q)) == sum((D(V[k], off[w] + k, q[0]) for k in range(dx)), z3.RealVal(0)))
+
+    step = 0
+    for w in ("y", "x"):
+        o = "x" if w == "y" else "y"
+        step += 1
+        g = S.call(DO + "grad", u, var[w])
+        want_grad(f"{step}", w, g.val)
+        step += 1
+        want_lap(f"{step}-after-grad-in-{w}", o, S.call(DO + "laplacian", u, var[o]).val)
+        step += 1
+        want_lap(f"{step}-after-laplacian-in-{o}", w, S.call(DO + "laplacian", u, var[w]).val)
+        step += 1
+        want_grad(f"{step}-after-laplacians", o, S.call(DO + "grad", u, var[o]).val)
+        step += 1
+        want_lap(f"{step}-with-the-documented-grad-shortcut", w, S.call(DO + "laplacian", u, var[w], grad=g).val)
+        step += 1
+        want_lap(f"{step}-after-the-grad-shortcut-for-{w}", o, S.call(DO + "laplacian", u, var[o]).val)
+    pxy = S.call(DO + "partial", u, x, y).val if dx == 1 else None
+    if pxy is not None:
+        S.forall("13:mixed-partial-x-then-y", Tensor(pxy), lambda q: zreal(pxy.at(q)) == DD(U, 0, 1, q[0]))
+    want_lap("14-after-partial", "x", S.call(DO + "laplacian", u, x).val)
+    want_div("15", "y", S.call(DO + "div", v, y).val)
+    want_div("16-after-div-in-y", "x", S.call(DO + "div", v, x).val)
+    jc = S.call(DO + "jac", v, y).val
+    S.forall("17:jacobian-in-y-after-div-in-x", Tensor(jc), lambda q: zreal(jc.at(q)) == core.select_comp(q[1][0] if dx != 1 else 0, dx, [(lambda c=c: core.select_comp(q[2][0] if dx != 1 else 0, dx, [(lambda k=k: D(V[c], dx + k, q[0])) for k in range(dx)])) for c in range(dx)]))
+    nrm = S.tensor("normals", [N, dx])
+    nd = S.call(DO + "normal_derivative", u, nrm, y).val
+    S.forall("18:normal-derivative-in-y", Tensor(nd), lambda q: zreal(nd.at(q)) == sum((D(U, dx + k, q[0]) * col(nrm.val, q, k, dx) for k in range(dx)), z3.RealVal(0)))
+    want_grad("19-after-normal-derivative-in-y", "x", S.call(DO + "grad", u, x).val)
